@@ -151,7 +151,7 @@ func checkC01(c *Ctx) {
 	c.Rule("C01.2", "running-status protocol: writer elides only an equal channel status, stores/clears as required, resets on the sysex path and after every track flush; reader clears on exactly FF/F0/F7 and sets on exactly 80-EF", 3)
 	c.Rule("C01.3", "no single-result type assertion reachable from ReadFrom/WriteTo whose operand can hold a second dynamic type", 1)
 	c.Rule("C01.4", "reader(writer(header)) = header for every format 0..2, track count, metric resolution 1..32767 and the four time-code rates with any subframes", 15)
-	c.Rule("C01.5", "auto-close before serialisation: WriteTo closes every open track before the first byte is produced", 2)
+	c.Rule("C01.5", "auto-close before serialisation: in the whole-file simulation of WriteTo (3 tracks: closed, open, closed) the open track is written with a final end-of-track and the closed ones are written as they are", 1)
 	c.Rule("C01.6", "VLQ composition: decode(encode(n)) = n in every magnitude cell (delta times and lengths)", 5)
 	c.Rule("C01.7", "delta / option plumbing: SetDelta+Write puts VLQ(delta) before the event once; NoRunningStatus selects the running-status stage; the decoded delta reaches Track.Add/Close; a multi-message Add gives the delta to the first message only", 5)
 
@@ -167,7 +167,9 @@ func checkC01(c *Ctx) {
 	ruleRSReader(c, "C01.2")
 	noUnguardedAssert(c, "C01.3", readFrom, writeTo)
 	ruleHeaderRead(c, "", "C01.4")
-	autoCloseBeforeWrite(c, "C01.5", writeTo)
+	runWriteToSim(c, "C01.5", "", "", "", "")
 	ruleVLQ(c, "", "", "C01.6")
 	rulePlumbing(c, "C01.7")
+	c.Rule("C01.8", "reading back cannot panic: every potentially panicking construct reachable from ReadFrom (incl. the tempo post-processing that runs on every read) is discharged for unknown inputs (= C05.1)", 15)
+	c.include(checkC05, map[string]string{"C05.1": "C01.8"})
 }
